@@ -103,7 +103,9 @@ static void ares_llist_attach_at(ares_llist_t            *list,
     case ARES__LLIST_INSERT_BEFORE:
       node->next = at;
       node->prev = at->prev;
-      at->prev   = node;
+      /* at is not the head (handled above), so it has a predecessor */
+      at->prev->next = node;
+      at->prev       = node;
       break;
   }
   if (list->tail == NULL) {
